@@ -5,6 +5,33 @@ import FeatModel.Lemmas.C10Local2D
 import FeatModel.Lemmas.C10Local2Db
 import FeatModel.Lemmas.C10Local2Dc
 import FeatModel.Lemmas.C10Sampler
+import FeatModel.Lemmas.C10Boundary
+import FeatModel.Lemmas.C10Volume
+import FeatModel.Lemmas.C10Keys
+import FeatModel.Lemmas.C10CoverData
+import FeatModel.Lemmas.C10CoverH3_00
+import FeatModel.Lemmas.C10CoverH3_01
+import FeatModel.Lemmas.C10CoverH3_02
+import FeatModel.Lemmas.C10CoverH3_03
+import FeatModel.Lemmas.C10CoverH3_04
+import FeatModel.Lemmas.C10CoverH3_05
+import FeatModel.Lemmas.C10CoverH3_06
+import FeatModel.Lemmas.C10CoverH3_07
+import FeatModel.Lemmas.C10CoverH3_08
+import FeatModel.Lemmas.C10CoverH3_09
+import FeatModel.Lemmas.C10CoverH3_10
+import FeatModel.Lemmas.C10CoverH3_11
+import FeatModel.Lemmas.C10CoverH3_12
+import FeatModel.Lemmas.C10CoverH3_13
+import FeatModel.Lemmas.C10CoverH3_14
+import FeatModel.Lemmas.C10CoverH3_15
+import FeatModel.Lemmas.C10CoverS3_00
+import FeatModel.Lemmas.C10CoverS3_01
+import FeatModel.Lemmas.C10CoverS3_02
+import FeatModel.Lemmas.C10CoverS3_03
+import FeatModel.Lemmas.C10CoverS3_04
+import FeatModel.Lemmas.C10CoverS3_05
+import FeatModel.Lemmas.C10CoverS3_06
 import FeatModel.Lemmas.C10LocalH3a
 import FeatModel.Lemmas.C10LocalH3b
 import FeatModel.Lemmas.C10LocalS3a
@@ -80,6 +107,87 @@ theorem C10.tables_structurally_wellformed (kind : Kind) :
     ∀ s < 4, ∀ c < 4, ∀ f < 4, ((indexTable kind s c f).all fun row => row.all (termOk kind s f)) = true :=
   tables_ok kind
 
+/-! ## conformity: GLOBAL lift for 2-D meshes of any size (triangles and quadrilaterals) -/
+
+/-- PARTIAL global lift, 2-D: for every conforming triangle or quadrilateral mesh `M` of any size, the refined mesh
+    satisfies every clause of `Mesh.consistent` except the pairwise one: sizes and index ranges (`shapeOk`), "every
+    listed edge really is the corresponding local edge of the cell" (`facesOk`), no repeated vertex inside an entity
+    (`nodupOk`, first half of `distinctOk`), "every interior facet has exactly two and every boundary facet one
+    adjacent cell" (`facetsOk`), and no orphan edges (`coveredOk`).  Derived from a symbolic check of the generated
+    2-D tables (`decide`) plus the semantic lemma that the child `sim.map(e,b)` of an edge is the one containing the
+    cell's local vertex `FIM[e][b]`.  MISSING for `C10.FullStatement` in 2-D: second half of `distinctOk` (two
+    different fine entities of one dimension never have the same vertex set). -/
+theorem C10.global_lift_2d_partial (M : Mesh) (hd : M.dim = 2) (h : M.consistent = true) :
+    (refine M).nums.length = 3 ∧ (refine M).shapeOk = true ∧ (refine M).facesOk = true ∧ (refine M).nodupOk ∧
+    (refine M).facetsOk = true ∧ (refine M).coveredOk = true := by
+  have := inv2_refine M (inv2_of_consistent M hd h)
+  exact ⟨this.nums3, this.shape, this.faces, this.nodup, this.facets, this.covered⟩
+
+/-- the lifted invariant `Inv2` (= `consistent` without pairwise distinctness) is preserved by every refinement
+    step, hence by whole refinement histories of any depth -/
+theorem C10.global_lift_2d_histories_partial (M : Mesh) (hd : M.dim = 2) (h : M.consistent = true) (n : Nat) :
+    Inv2 (Nat.iterate refine n M) := by
+  induction n generalizing M with
+  | zero => exact inv2_of_consistent M hd h
+  | succ n ih =>
+    have key : ∀ (k : Nat) (N : Mesh), Inv2 N → Inv2 (Nat.iterate refine k N) := by
+      intro k
+      induction k with
+      | zero => intro N hN; exact hN
+      | succ k ihk => intro N hN; exact ihk (refine N) (inv2_refine N hN)
+    exact key (n + 1) M (inv2_of_consistent M hd h)
+
+/-- groundwork for the missing clause: entities (entries `< base`) with equal `setKey` have the same vertex set, so
+    `distinctOk` may be established by showing that the vertex sets differ -/
+theorem C10.setKey_identifies_vertex_sets (base : Nat) (x y : List Nat) (hx : ∀ v ∈ x, v < base)
+    (hy : ∀ v ∈ y, v < base) (h : setKey base x = setKey base y) : sameSet x y = true :=
+  setKey_eq_sameSet base x y hx hy h
+
+/-! ## the computed boundary -/
+
+/-- **the computed boundary facets are exactly the facets with one adjacent cell** (model of `BoundaryFactory` /
+    `BoundaryFaceComputer::compute_all`; every mesh, every dimension) -/
+theorem C10.boundary_is_one_cell_facets (M : Mesh) (hd : 1 ≤ M.dim) :
+    (boundary M).getD (M.dim - 1) [] = (List.range (M.num (M.dim - 1))).filter fun l => M.facetCount l == 1 :=
+  boundary_facets M hd
+
+/-- the lower-dimensional target sets of the computed boundary are exactly the faces of those facets (mask loop) -/
+theorem C10.boundary_lower_faces (M : Mesh) (d x : Nat) (hd : d < M.dim - 1) :
+    x ∈ (boundary M).getD d [] ↔
+      x < M.num d ∧ ∃ q, q < M.num (M.dim - 1) ∧ M.facetCount q = 1 ∧ x ∈ M.tuple (M.dim - 1) d q :=
+  boundary_faces M d x hd
+
+/-- 2-D, any mesh size: the boundary facets computed on the refined mesh are exactly the two children of every
+    boundary facet computed on the coarse mesh -/
+theorem C10.boundary_preserved_2d (M : Mesh) (hd : M.dim = 2) (hs : M.shapeOk = true) (x : Nat) :
+    x ∈ (boundary (refine M)).getD 1 [] ↔ x < 2 * M.num 1 ∧ x / 2 ∈ (boundary M).getD 1 [] :=
+  boundary_refine2 M ⟨hd, hs⟩ x
+
+/-- 2-D adjacency counts under refinement: a child of a coarse edge has as many adjacent fine cells as its parent has
+    coarse cells; an inner edge has exactly two -/
+theorem C10.facet_adjacency_2d (M : Mesh) (hd : M.dim = 2) (hs : M.shapeOk = true) (x : Nat)
+    (hx : x < (refine M).num 1) :
+    (x < 2 * M.num 1 → (refine M).facetCount x = M.facetCount (x / 2)) ∧
+    (2 * M.num 1 ≤ x → (refine M).facetCount x = 2) :=
+  facetCount_refine2_cases M ⟨hd, hs⟩ x hx
+
+/-! ## volume and orientation (local polynomial identities in the vertex coordinates) -/
+
+/-- every child of a straight triangle with arbitrary rational vertex coordinates has exactly a quarter of the
+    parent's signed area: the children tile the parent and keep its orientation -/
+theorem C10.volume_orientation_triangle (x0 y0 x1 y1 x2 y2 : Rat) :
+    ∀ t ∈ (refine (triMesh x0 y0 x1 y1 x2 y2)).idx 2 0,
+      triArea2 (refine (triMesh x0 y0 x1 y1 x2 y2)) t = 1/4 * triArea2 (triMesh x0 y0 x1 y1 x2 y2) [0, 1, 2] :=
+  tri_children_area x0 y0 x1 y1 x2 y2
+
+/-- the four children of a bilinear quadrilateral with arbitrary rational vertex coordinates have areas summing to
+    the parent's area -/
+theorem C10.volume_quadrilateral (x0 y0 x1 y1 x2 y2 x3 y3 : Rat) :
+    (((refine (quadMesh x0 y0 x1 y1 x2 y2 x3 y3)).idx 2 0).map
+        (quadArea2 (refine (quadMesh x0 y0 x1 y1 x2 y2 x3 y3)))).sum
+      = quadArea2 (quadMesh x0 y0 x1 y1 x2 y2 x3 y3) [0, 1, 2, 3] :=
+  quad_children_area x0 y0 x1 y1 x2 y2 x3 y3
+
 /-! ## orientation codes (specification of the hand-transcribed `CongruencySampler::compare`, any vertex numbers) -/
 
 /-- quadrilateral faces: if the source tuple is the `code`-th of the 8 symmetric arrangements of the target tuple
@@ -151,6 +259,72 @@ theorem C10.local_refinement_tetrahedron_partial :
   · simpa using local_tetra_a j h
   · have := local_tetra_b (j - 3) (by omega)
     rwa [Nat.sub_add_cancel (by omega)] at this
+
+/-- PARTIAL 3-D local lemma, hexahedron, PAIRWISE covering family (64 cells, orthogonal array over GF(8)): every pair
+    of the cell's 6 faces with all 8×8 joint orientation codes, every face code jointly with either orientation of
+    every edge, every pair of edges with all four flip combinations (`C10.covering_family_covers_pairs`) refines to
+    a conforming mesh.  NOT the full product 8⁶·2¹² (infeasible by evaluation; it needs the 3-D analogue of the
+    semantic lemma `sim_child`, see `Lemmas/C10Lift2D.lean`) -/
+theorem C10.local_refinement_hexahedron_pairs_partial :
+    ∀ idx < 64, (refine (cell3c .hypercube idx)).consistent = true := by
+  intro idx h
+  have hm : idx / 4 < 16 := by omega
+  have hj : idx % 4 < 4 := by omega
+  have e : idx = idx % 4 + 4 * (idx / 4) := by omega
+  rw [e]
+  match idx / 4, hm with
+  | 0, _ => exact cover_hexa_00 _ hj
+  | 1, _ => exact cover_hexa_01 _ hj
+  | 2, _ => exact cover_hexa_02 _ hj
+  | 3, _ => exact cover_hexa_03 _ hj
+  | 4, _ => exact cover_hexa_04 _ hj
+  | 5, _ => exact cover_hexa_05 _ hj
+  | 6, _ => exact cover_hexa_06 _ hj
+  | 7, _ => exact cover_hexa_07 _ hj
+  | 8, _ => exact cover_hexa_08 _ hj
+  | 9, _ => exact cover_hexa_09 _ hj
+  | 10, _ => exact cover_hexa_10 _ hj
+  | 11, _ => exact cover_hexa_11 _ hj
+  | 12, _ => exact cover_hexa_12 _ hj
+  | 13, _ => exact cover_hexa_13 _ hj
+  | 14, _ => exact cover_hexa_14 _ hj
+  | 15, _ => exact cover_hexa_15 _ hj
+  | n + 16, hn => exact absurd hn (by omega)
+
+/-- PARTIAL 3-D local lemma, tetrahedron, pairwise covering family (49 cells over GF(7)) -/
+theorem C10.local_refinement_tetrahedron_pairs_partial :
+    ∀ idx < 49, (refine (cell3c .simplex idx)).consistent = true := by
+  intro idx h
+  have hm : idx / 7 < 7 := by omega
+  have hj : idx % 7 < 7 := by omega
+  have e : idx = idx % 7 + 7 * (idx / 7) := by omega
+  rw [e]
+  match idx / 7, hm with
+  | 0, _ => exact cover_tetra_00 _ hj
+  | 1, _ => exact cover_tetra_01 _ hj
+  | 2, _ => exact cover_tetra_02 _ hj
+  | 3, _ => exact cover_tetra_03 _ hj
+  | 4, _ => exact cover_tetra_04 _ hj
+  | 5, _ => exact cover_tetra_05 _ hj
+  | 6, _ => exact cover_tetra_06 _ hj
+  | n + 7, hn => exact absurd hn (by omega)
+
+/-- the covering families do cover every pair of sub-entity orientations -/
+theorem C10.covering_family_covers_pairs :
+    (∀ k < 6, ∀ k' < 6, k ≠ k' → ∀ v < 8, ∀ v' < 8,
+      ((List.range 64).any fun i => faceCodeAt .hypercube i k == v && faceCodeAt .hypercube i k' == v') = true) ∧
+    (∀ k < 6, ∀ v < 8, ∀ e < 12, ∀ f < 2,
+      ((List.range 64).any fun i => faceCodeAt .hypercube i k == v && edgeFlipAt .hypercube i e == f) = true) ∧
+    (∀ e < 12, ∀ e' < 12, e ≠ e' → ∀ f < 2, ∀ f' < 2,
+      ((List.range 64).any fun i => edgeFlipAt .hypercube i e == f && edgeFlipAt .hypercube i e' == f') = true) ∧
+    (∀ k < 4, ∀ k' < 4, k ≠ k' → ∀ v ∈ [0, 1, 2, 4, 5, 6], ∀ v' ∈ [0, 1, 2, 4, 5, 6],
+      ((List.range 49).any fun i => faceCodeAt .simplex i k == v && faceCodeAt .simplex i k' == v') = true) ∧
+    (∀ k < 4, ∀ v ∈ [0, 1, 2, 4, 5, 6], ∀ e < 6, ∀ f < 2,
+      ((List.range 49).any fun i => faceCodeAt .simplex i k == v && edgeFlipAt .simplex i e == f) = true) ∧
+    (∀ e < 6, ∀ e' < 6, e ≠ e' → ∀ f < 2, ∀ f' < 2,
+      ((List.range 49).any fun i => edgeFlipAt .simplex i e == f && edgeFlipAt .simplex i e' == f') = true) :=
+  ⟨cover_hexa_face_pairs, cover_hexa_face_edge, cover_hexa_edge_pairs, cover_tetra_face_pairs,
+    cover_tetra_face_edge, cover_tetra_edge_pairs⟩
 
 /-- the hypotheses are satisfiable: the reference cells themselves are conforming meshes -/
 theorem C10.reference_cells_conforming :
